@@ -357,6 +357,19 @@ func (t *GzipPacked) UnmarshalTL(d *tl.Decoder) error {
 	return nil
 }
 
+// UnpackGzipPacked returns the serialized object which is packed into serialized gzip_packed (data starts
+// with crc code of gzip_packed). It's required when you need to look into the packed message before decoding.
+func UnpackGzipPacked(data []byte) ([]byte, error) {
+	d, err := tl.NewDecoder(bytes.NewReader(data))
+	if err != nil {
+		return nil, err
+	}
+	if crc := d.PopCRC(); crc != CrcGzipPacked {
+		return nil, errors.New("not a gzip_packed object")
+	}
+	return new(GzipPacked).popMessageAsBytes(d)
+}
+
 func (*GzipPacked) popMessageAsBytes(d *tl.Decoder) ([]byte, error) {
 	// TODO: СТАНДАРТНЫЙ СУКА ПАКЕТ gzip пишет "gzip: invalid header". при этом как я разобрался, в
 	//       сам гзип попадает кусок, который находится за миллиард бит от реального сообщения
